@@ -57,11 +57,17 @@ def gen_map(rng, existing: typing.List[bytes], allow_relative: bool) -> bytes:
         name = rng.choice(WORDS) + b" %d" % rng.randrange(100)
         if r < 0.2:
             lines.append(rng.choice([b"Welcome to the site", b"", b"-----", b"plain text with spaces", name,
-                                     b"caf\xe9 latin1 info", b"1 looks like a link but has no tab"]))
+                                     b"caf\xe9 latin1 info", b"1 looks like a link but has no tab",
+                                     # lines that other formats read as comments or markup: here they are text like any other
+                                     b"# News", b"## older items", b"#gopher on irc.example.org", b"#", b"; note", b"// note",
+                                     b"!bang", b"\"quoted\""]))
         elif r < 0.3:
             lines.append(b"i" + name + b"\tfake\t(NULL)\t0")
         else:
             typ = rng.choice(TYPES).encode()
+            if rng.random() < 0.06:
+                # the type is the line's first character, whatever it is
+                typ = rng.choice([b"#", b'"', b"<", b"&", b";", b"+", b"'"])
             k = rng.random()
             if k < 0.15 and allow_relative:
                 lines.append(typ + rng.choice(existing + [b"missing.txt"]) + b"\t")          # selector = description
